@@ -74,6 +74,21 @@ func c18(c *Ctx) {
 				if !strings.HasSuffix(ap.Common().Args[0].Type().String(), "roles.Resource") {
 					continue
 				}
+				// a slice that was itself accumulated by appends (the result of an
+				// extracted helper) carries elements that were gated where they were added
+				reappend := false
+				direct := false
+				for _, ci := range flow.Strict.CallsIn(ap.Common().Args[1]) {
+					switch {
+					case cfgx.CalleeName(ci) == "builtin.append":
+						reappend = true
+					case strings.HasSuffix(cfgx.CalleeName(ci), ".DefinedResources") && ci.Block() == ap.Block():
+						direct = true
+					}
+				}
+				if reappend && !direct {
+					continue
+				}
 				n++
 				c.requireCross(site(ap)+" same-org", ap, same, "OrgDiffer.Differs(...)==false")
 			}
@@ -304,7 +319,7 @@ func c18(c *Ctx) {
 			for _, e := range elems {
 				switch field {
 				case "APIGroups":
-					if _, p, ok := flow.AccessPath(e); !ok || p != "Spec.Group" {
+					if _, p, ok := flow.AccessPathC(e); !ok || p != "Spec.Group" {
 						return false, "element is not d.Spec.Group"
 					}
 				case "Resources":
@@ -316,7 +331,7 @@ func c18(c *Ctx) {
 						}
 						base = bo.X
 					}
-					_, p, ok := flow.AccessPath(base)
+					_, p, ok := flow.AccessPathC(base)
 					if !ok || (p != "Spec.Names.Plural" && p != "Spec.ClaimNames.Plural") {
 						return false, "element is not (Claim)Names.Plural[+suffix]: " + p
 					}
@@ -439,7 +454,7 @@ func c18(c *Ctx) {
 		// names defaults to the wildcard when len(ResourceNames) < 1
 		good := false
 		for _, lc := range cfgx.LenCmps(ex) {
-			if _, p, ok := flow.AccessPath(lc.Of); ok && strings.HasSuffix(p, "ResourceNames") {
+			if _, p, ok := flow.AccessPathC(lc.Of); ok && strings.HasSuffix(p, "ResourceNames") {
 				if lc.Eval(0) != lc.Eval(1) && lc.Eval(1) == lc.Eval(3) {
 					good = true
 				}
@@ -559,12 +574,12 @@ func sliceConstStrings(v ssa.Value) ([]string, bool) {
 }
 
 func pathOf(v ssa.Value) (string, ssa.Value, bool) {
-	r, p, ok := flow.AccessPath(v)
+	r, p, ok := flow.AccessPathC(v)
 	return p, r, ok
 }
 
 func rootOf(v ssa.Value) ssa.Value {
-	r, _, _ := flow.AccessPath(v)
+	r, _, _ := flow.AccessPathC(v)
 	return r
 }
 
